@@ -329,6 +329,9 @@ _run_main = run
 def run(rep: core.Report):
     _run_main(rep)
     _r06f(rep)
+    from rules import shared_trunc
+
+    shared_trunc.run(rep, "R06g")
 
 
 def selftest():
